@@ -195,6 +195,15 @@ class Runner:
             d.on('*', g_any, '*', co)
 
     def _mk_connect(self, ns, via):
+        if (self.cfg.get('connect_signature') or {}).get(ns) == 'required':
+            # a handler that declares auth as a required third positional:
+            # for a client without auth payload the server first tries
+            # (sid, environ) and, on TypeError, again with auth=None
+            def connect(sid, environ, auth):
+                return self._invoke('connect', ns, 'connect', sid,
+                                    [auth, env_label(environ)], via)
+            return connect
+
         def connect(sid, environ, auth=None):
             return self._invoke('connect', ns, 'connect', sid,
                                 [auth, env_label(environ)], via)
@@ -233,9 +242,14 @@ class Runner:
                 def m(self_, *a):
                     return h(*a)
             body[name] = m
-        add('on_connect', lambda sid, environ, auth=None: runner._invoke(
-            'connect', ns, 'connect', sid, [auth, env_label(environ)],
-            'class'))
+        if (self.cfg.get('connect_signature') or {}).get(ns) == 'required':
+            add('on_connect', lambda sid, environ, auth: runner._invoke(
+                'connect', ns, 'connect', sid, [auth, env_label(environ)],
+                'class'))
+        else:
+            add('on_connect', lambda sid, environ, auth=None:
+                runner._invoke('connect', ns, 'connect', sid,
+                               [auth, env_label(environ)], 'class'))
         add('on_disconnect', lambda sid, reason: runner._invoke(
             'disconnect', ns, 'disconnect', sid, [reason], 'class'))
         for ev in CLASS_EVENTS:
